@@ -45,6 +45,13 @@ theorem trim_inv_inplace {r : Result} (h : trimDisconnected C n labels nsub fals
     subst h
     exact ⟨h0, rfl, rfl, fun _ _ => rfl, rfl⟩
 
+theorem trim_keep {C : Nat → Nat → Nat} {n : Nat} {labels : Nat → Nat} {nsub : Nat} {renumber : Bool}
+    {r : Result} (h : trimDisconnected C n labels nsub renumber = .ok r) :
+    nsub ≠ 0 ∧ r.keep = keepStates C n labels nsub := by
+  cases renumber
+  · exact ⟨(trim_inv_inplace h).1, (trim_inv_inplace h).2.1⟩
+  · exact ⟨(trim_inv_renumber h).1, (trim_inv_renumber h).2.1⟩
+
 /-! ### entries -/
 
 theorem renumber_entry {r : Result} (h : trimDisconnected C n labels nsub true = .ok r)
